@@ -38,11 +38,20 @@ def _script_from_acts(acts) -> List[Dict[str, Any]]:
 def random_script(rnd: random.Random, length: int) -> List[Dict[str, Any]]:
     out: List[Dict[str, Any]] = []
     depth = 0
-    style = rnd.choice(["busy", "sleepy", "nested", "timers"])
+    style = rnd.choice(["busy", "sleepy", "nested", "timers", "keys"])
+    if style == "keys":
+        # the keyboard matrix as interrupt source: columns strobed, a key pressed / released while the program runs
+        out.append({"ev": "Step", "ins": {"k": "STROBE", "v": 0xFF}})
     if style == "timers":
         out.append({"ev": "TimerCfg", "pm": rnd.choice([2, 3, 5]), "ps": rnd.choice([0, 4, 7])})
     for _ in range(length):
         r = rnd.random()
+        if style == "keys" and r < 0.22:
+            code = rnd.choice([0x01, 0x03, 0x0A, 0x21])
+            out.append({"ev": "Key", "code": code, "press": rnd.random() < 0.6})
+            r = 1.0
+        if style == "keys" and rnd.random() < 0.08:
+            out.append({"ev": "Step", "ins": {"k": "READKIL"}})
         if r < 0.10:
             out.append({"ev": "Timer", "s": rnd.choice([0, 1])})
         elif r < 0.16:
